@@ -11,6 +11,7 @@ import (
 	"os/exec"
 	"path/filepath"
 	"runtime"
+	"runtime/debug"
 	"sort"
 	"strconv"
 	"strings"
@@ -295,6 +296,14 @@ func CheckMain(p *Prop, pc *ParentCtx) int {
 		sort.Strings(keys)
 
 		for _, k := range keys {
+			if strings.HasPrefix(k, "bits:") {
+				if got := int64(bitmapCount(agg.Bitmaps[strings.TrimPrefix(k, "bits:")])); got < req[k] && len(agg.Violations) == 0 {
+					agg.Incon("coverage bitmap %q has %d < required %d bits set", k, got, req[k])
+				}
+
+				continue
+			}
+
 			if agg.Counters[k] < req[k] && len(agg.Violations) == 0 {
 				agg.Incon("observed %d < required %d events of class %q", agg.Counters[k], req[k], k)
 			}
@@ -471,11 +480,21 @@ func ShardMain(p *Prop, tier string, seed uint64, shard int, out string) int {
 	if err := oracle.SelfTest(); err != nil {
 		c.Inconclusive("oracle self-test failed in child: " + err.Error())
 	} else {
-		p.Generate(c)
+		func() {
+			// A panic that reaches this point did not happen inside a monitored case (those are caught in exec): it is
+			// a failure of the harness's own generator code, which makes the run inconclusive, never a violation.
+			defer func() {
+				if r := recover(); r != nil {
+					c.Inconclusive(fmt.Sprintf("harness failure outside a monitored call: %v\n%s", r, firstLines(string(debug.Stack()), 30)))
+				}
+			}()
 
-		if p.Finish != nil {
-			p.Finish(c)
-		}
+			p.Generate(c)
+
+			if p.Finish != nil {
+				p.Finish(c)
+			}
+		}()
 	}
 
 	if err := c.WriteShard(out); err != nil {
